@@ -361,3 +361,206 @@ def c11_driver(ctx):
                     res["oracle_fail"].append(("extraction-wrote-outside-output-dir", "edge names preserve=%d skip=%d: %s" % (pres, skip, q)))
     shutil.rmtree(root, ignore_errors=True)
     return res
+
+
+# ---------------------------------------------------------------- C20: the CLI's exit status and outputs
+def c20_driver(ctx):
+    res = {"evals": 0, "nontrivial": 0, "stats": {}, "samples": [], "oracle_fail": [], "disagreements": [], "model_cases": 0}
+    st = res["stats"]
+
+    def bump(k, n=1):
+        st[k] = st.get(k, 0) + n
+    ok, out, cli = build_cli()
+    if not ok:
+        res["oracle_fail"].append(("cli-does-not-build", out[-800:]))
+        return res
+    wvh, wvmodel, tier, seed = ctx["wvh"], ctx["wvmodel"], ctx["tier"], ctx["seed"]
+    rng = _R(seed)
+    root = os.path.join(ctx["outdir"], "sb20")
+    shutil.rmtree(root, ignore_errors=True)
+    os.makedirs(root)
+
+    def run(args, cwd=None):
+        p = subprocess.run([cli] + args, stdout=subprocess.PIPE, stderr=subprocess.PIPE, text=True, cwd=cwd or root, timeout=120)
+        return p.returncode, p.stdout, p.stderr
+    model_reqs = []   # (request, implementation answer)
+
+    # ---- A. create -> list/info -> extract
+    versions = ["v1", "v2", "v3", "v4"]
+    comps = ["none", "zlib", "bzip2", "lzma"]
+    n_sets = 6 if tier == "quick" else 40
+    for si in range(n_sets):
+        sdir = os.path.join(root, "set%d" % si)
+        src = os.path.join(sdir, "src")
+        os.makedirs(src)
+        files = {}
+        nfiles = 1 + rng.below(7)
+        for fi in range(nfiles):
+            kind = rng.below(6)
+            size = [0, 1, 5, 511, 4096, 20000][kind] if rng.below(3) else rng.below(9000)
+            cls = rng.below(3)
+            if cls == 0:
+                data = bytes((rng.next() & 0xFF) for _ in range(size))          # incompressible
+            elif cls == 1:
+                data = bytes([65 + (j // 13 + fi) % 7 for j in range(size)])     # compressible
+            else:
+                data = b"\0" * size
+            name = ["a.txt", "B.DAT", "c c.bin", "d-%d.x" % fi, "(1) notes.txt", "e.tar.gz", "f"][fi % 7]
+            open(os.path.join(src, name), "wb").write(data)
+            files[name] = (data, cls)
+        ver, comp = versions[si % 4], comps[(si // 2) % 4]
+        arch = os.path.join(sdir, "t.mpq")
+        add = []
+        for n in files:
+            add += ["-a", os.path.join(src, n)]
+        rc, so, se = run(["mpq", "create", arch, "--version", ver, "--compression", comp, "--with-listfile"] + add)
+        res["evals"] += 1
+        bump("c20.create.%s.%s.exit%d" % (ver, comp, rc))
+        if rc != 0:
+            # a create that cannot do what was asked must not leave an archive claiming success; nothing further to check
+            continue
+        # list agrees with the library
+        rc, so, se = run(["mpq", "list", arch])
+        lib = subprocess.run([wvh, "fsop", "list", arch], stdout=subprocess.PIPE, text=True)
+        libnames = sorted(l.split("\t")[0] for l in lib.stdout.strip().split("\n") if l and not l.startswith("ERR"))
+        clinames = sorted(l.strip() for l in so.split("\n") if l.strip() and not l.startswith(("Total", "Files", "---", "Archive", "Reading", "Found", "Parsing")))
+        res["evals"] += 1
+        if rc != 0 or not all(n in clinames for n in libnames):
+            res["oracle_fail"].append(("list-disagrees-with-library", "set%d %s %s: exit %d cli=%s lib=%s" % (si, ver, comp, rc, clinames[:8], libnames[:8])))
+        rc, so, se = run(["mpq", "info", arch])
+        res["evals"] += 1
+        if rc != 0:
+            res["oracle_fail"].append(("info-fails-on-valid-archive", "set%d %s %s: %s" % (si, ver, comp, se[-200:])))
+        # extract: whole archive / explicit names / with a missing name, with and without skip-errors
+        for mode in ("all", "explicit", "missing", "missing-skip"):
+            outd = os.path.join(sdir, "out-" + mode)
+            os.makedirs(outd)
+            args = ["mpq", "extract", arch, "-o", outd, "--threads", str(1 + rng.below(4))]
+            want = dict(files)
+            if mode == "explicit":
+                pickn = list(files)[: max(1, len(files) // 2)]
+                args += ["--"] + pickn
+                want = {n: files[n] for n in pickn}
+            if mode.startswith("missing"):
+                args += (["--skip-errors"] if mode.endswith("skip") else []) + ["--"] + list(files)[:2] + ["no-such-file.bin"]
+                want = {n: files[n] for n in list(files)[:2]}
+            rc, so, se = run(args)
+            res["evals"] += 1
+            failed = 1 if mode.startswith("missing") else 0
+            model_reqs.append(("c20exit extract %d 1 %d %d 0" % (1 if mode.endswith("skip") else 0, len(want) + failed, failed), str(rc)))
+            bump("c20.extract.%s.exit%d" % (mode, rc))
+            for n, (data, cls) in want.items():
+                pth = os.path.join(outd, n)
+                got = open(pth, "rb").read() if os.path.isfile(pth) else None
+                if mode == "missing" and rc != 0:
+                    continue       # the call failed as a whole and said so
+                if rc == 0 and got != data:
+                    multi_raw = len(data) > 4096 and (cls == 0 or comp == "none")
+                    tag = "create-extract-differs-multisector-raw" if multi_raw else "exit0-but-output-incomplete-or-different"
+                    res["oracle_fail"].append((tag, "set%d %s %s mode=%s: %s (%d bytes, class %d) -> %s" % (
+                        si, ver, comp, mode, n, len(data), cls, "missing" if got is None else "%d bytes differ" % len(got))))
+                elif rc == 0:
+                    res["nontrivial"] += 1
+            if mode == "missing" and rc == 0:
+                res["oracle_fail"].append(("missing-name-but-exit0", "set%d %s %s: explicit missing name without --skip-errors exited 0" % (si, ver, comp)))
+        # validate: intact archive -> 0; with a file's data destroyed -> non-zero
+        rc, so, se = run(["mpq", "validate", arch])
+        res["evals"] += 1
+        model_reqs.append(("c20exit validate 0 1 %d 0 0" % len(files), str(rc)))
+        raw = bytearray(open(arch, "rb").read())
+        big = [n for n, (d, c) in files.items() if len(d) >= 511 and c == 1 and comp != "none"]
+        if big and len(raw) > 600:
+            # overwrite the compressed payload region (after the header, before the tables) with junk
+            hdr = {"v1": 32, "v2": 44, "v3": 68, "v4": 208}[ver]
+            for i in range(hdr, min(len(raw) - 64, hdr + max(400, (len(raw) * 6) // 10))):
+                if i % 3:
+                    raw[i] ^= 0x5A
+            bad = os.path.join(sdir, "bad.mpq")
+            open(bad, "wb").write(raw)
+            rc2, so2, se2 = run(["mpq", "validate", bad])
+            res["evals"] += 1
+            libv = subprocess.run([wvh, "fsop", "verify", bad, "0"], stdout=subprocess.PIPE, text=True)
+            said_failed = "\u2717" in so2 or "validation failed" in so2.lower()
+            bump("c20.validate.corrupt.exit%d" % rc2)
+            if said_failed and rc2 == 0:
+                res["oracle_fail"].append(("validate-reports-failure-but-exit0", "set%d %s %s: stdout says failed, exit 0: %s" % (si, ver, comp, so2.strip()[-120:])))
+    # ---- B. every format family: valid / truncated / corrupted / empty / missing input
+    for kind, cmds in (("dbc", [["dbc", "info"], ["dbc", "list"], ["dbc", "analyze"]]),
+                       ("wdt", [["wdt", "info"], ["wdt", "validate"], ["wdt", "tiles"], ["wdt", "tree"]]),
+                       ("wdl", [["wdl", "info"], ["wdl", "validate"], ["wdl", "tree"]]),
+                       ("mpq", [["mpq", "info"], ["mpq", "list"], ["mpq", "validate"], ["mpq", "tree"]])):
+        good = os.path.join(root, "good." + kind)
+        if kind == "mpq":
+            shutil.copy(os.path.join(root, "set0", "t.mpq"), good) if os.path.exists(os.path.join(root, "set0", "t.mpq")) else None
+        else:
+            subprocess.run([wvh, "fsop", "mkfile", kind, good])
+        if not os.path.exists(good):
+            continue
+        data = open(good, "rb").read()
+        variants = {"valid": data, "empty": b"", "half": data[: len(data) // 2], "header-only": data[:12],
+                    "magic-zeroed": b"\0\0\0\0" + data[4:], "tail-cut": data[:-3]}
+        for vn, vb in variants.items():
+            pth = os.path.join(root, "in-%s.%s" % (vn, kind))
+            open(pth, "wb").write(vb)
+            lib = subprocess.run([wvh, "fsop", "parse", kind, pth], stdout=subprocess.PIPE, text=True).returncode == 0
+            for c in cmds:
+                rc, so, se = run(c + [pth])
+                res["evals"] += 1
+                bump("c20.%s.%s.%s.exit%d" % (kind, c[1], vn, min(rc, 1) if rc >= 0 else 2))
+                model_reqs.append(("c20exit other 0 %d 0 0 0" % (1 if lib else 0), str(min(rc, 1)))) if not (lib and rc != 0) else None
+                if not lib and rc == 0:
+                    res["oracle_fail"].append(("malformed-input-but-exit0", "%s %s on %s input (library rejects it): exit 0" % (c[0], c[1], vn)))
+                if rc < 0 or rc > 2:
+                    res["oracle_fail"].append(("cli-crashed", "%s %s on %s input: exit %d %s" % (c[0], c[1], vn, rc, se[-150:])))
+        for c in cmds:
+            rc, so, se = run(c + [os.path.join(root, "does-not-exist." + kind)])
+            res["evals"] += 1
+            if rc == 0:
+                res["oracle_fail"].append(("missing-input-but-exit0", "%s %s" % (c[0], c[1])))
+    # ---- C. BLP family through the tool's own converter: info / validate on every (size, format) combination
+    import zlib, struct
+
+    def png(w, h):
+        rowsb = b"".join(b"\0" + bytes([(x * 37 + y * 11) % 256, (x * 5) % 256, (y * 9) % 256, 255 if (x + y) % 3 else 0]) * 1 for y in range(h) for x in range(1))
+        raw = b"".join(b"\0" + b"".join(bytes([(x * 37 + y * 11) % 256, (x * 5) % 256, (y * 9) % 256, 255 if (x + y) % 3 else 0]) for x in range(w)) for y in range(h))
+
+        def chunk(t, d):
+            c = struct.pack(">I", len(d)) + t + d
+            return c + struct.pack(">I", zlib.crc32(t + d) & 0xFFFFFFFF)
+        return b"\x89PNG\r\n\x1a\n" + chunk(b"IHDR", struct.pack(">IIBBBBB", w, h, 8, 6, 0, 0, 0)) + chunk(b"IDAT", zlib.compress(raw)) + chunk(b"IEND", b"")
+    sizes = [(1, 1), (2, 2), (6, 6), (6, 20), (8, 8), (16, 4), (5, 7), (64, 64)] if tier == "quick" else \
+            [(w, h) for w in (1, 2, 3, 4, 6, 8, 12, 16, 64) for h in (1, 2, 4, 5, 20, 64)]
+    for (w, h) in sizes:
+        pp = os.path.join(root, "i%dx%d.png" % (w, h))
+        open(pp, "wb").write(png(w, h))
+        for ver, fmt in (("blp1", "raw1"), ("blp1", "jpeg"), ("blp2", "raw1"), ("blp2", "raw3"), ("blp2", "dxt1"), ("blp2", "dxt3"), ("blp2", "dxt5")):
+            for strict in ([], ["--strict"]):
+                outb = os.path.join(root, "o%dx%d-%s-%s.blp" % (w, h, ver, fmt))
+                rc, so, se = run(["blp", "convert", pp, outb, "--blp-version", ver, "--blp-format", fmt])
+                res["evals"] += 1
+                bump("c20.blp.convert.%s.%s.exit%d" % (ver, fmt, min(rc, 1)))
+                if rc == 0 and not os.path.isfile(outb):
+                    res["oracle_fail"].append(("exit0-but-output-incomplete-or-different", "blp convert %dx%d %s %s: exit 0, no output file" % (w, h, ver, fmt)))
+                if rc != 0 or not os.path.isfile(outb):
+                    continue
+                rc, so, se = run(["blp", "validate", outb] + strict)
+                res["evals"] += 1
+                has_err = "Errors:" in so or "\u2717" in so
+                bump("c20.blp.validate.%s.exit%d" % ("errors" if has_err else "clean", min(rc, 1)))
+                model_reqs.append(("c20exit validate 0 1 1 %d 0" % (1 if has_err else 0), str(min(rc, 1))))
+                if has_err and rc == 0:
+                    res["oracle_fail"].append(("validate-reports-failure-but-exit0", "blp validate %s on %dx%d %s %s: prints errors, exits 0" % (" ".join(strict), w, h, ver, fmt)))
+                rc, so, se = run(["blp", "info", outb])
+                res["evals"] += 1
+                if rc != 0:
+                    res["oracle_fail"].append(("info-fails-on-valid-archive", "blp info on converter output %dx%d %s %s: exit %d" % (w, h, ver, fmt, rc)))
+    # ---- model correspondence for the exit-status table
+    if model_reqs:
+        mo = subprocess.run([wvmodel], input="\n".join(r for r, _ in model_reqs) + "\n", stdout=subprocess.PIPE, text=True).stdout.split("\n")
+        for (r, a), m in zip(model_reqs, mo):
+            res["model_cases"] += 1
+            if a != m:
+                res["disagreements"].append((0, r, a, m))
+    res["samples"].append({"example_requests": [r for r, _ in model_reqs[:4]]})
+    shutil.rmtree(root, ignore_errors=True)
+    return res
